@@ -126,6 +126,9 @@ func run(c Case, rec *h.Rec) {
 	var lines []string
 	var libRecs []*sam.Record
 	special := false
+	var prevB []byte
+	var prevLine string
+	var reused sam.Record // one Record value that every line is parsed into in turn
 	for i, a := range c.Recs {
 		lr, err := a.LibRecord(hd)
 		if err != nil {
@@ -139,6 +142,21 @@ func run(c Case, rec *h.Rec) {
 			return
 		}
 		line := string(b)
+		// the returned line belongs to the caller: formatting again (the other flag
+		// spelling gives different text) must leave it as it was
+		if alt, err := lr.MarshalSAM(sam.FlagDecimal + sam.FlagHex - flagFmt); err != nil || string(alt) == line {
+			rec.Failf("MarshalSAM(record %d) with the other flag format: err %v, same text %v", i, err, string(alt) == line)
+			return
+		}
+		if string(b) != line {
+			rec.Failf("the line returned by MarshalSAM changed when MarshalSAM was called again:\n  %q\n  %q", line, b)
+			return
+		}
+		if prevB != nil && string(prevB) != prevLine {
+			rec.Failf("the line returned for record %d changed while record %d was formatted and parsed:\n  %q\n  %q", i-1, i, prevLine, prevB)
+			return
+		}
+		prevB, prevLine = b, line
 		want := sb.SpecSAMLine(a, c.H.Refs, c.FlagFmt)
 		if !sameLine(line, want) {
 			rec.Failf("record %d formats as\n  %q\nthe specification formatter gives\n  %q", i, line, want)
@@ -168,6 +186,15 @@ func run(c Case, rec *h.Rec) {
 		}
 		if b3, err := free.MarshalSAM(flagFmt); err != nil || string(b3) != line {
 			rec.Failf("line changes after a parse/format cycle without a header (err %v):\n  %q\n  %q", err, line, b3)
+			return
+		}
+		// a Record that held another line before
+		if err := reused.UnmarshalSAM(hd, []byte(line)); err != nil {
+			rec.Failf("UnmarshalSAM into a Record that was used before rejects the line: %v\n  %q", err, line)
+			return
+		}
+		if b4, err := reused.MarshalSAM(flagFmt); err != nil || string(b4) != line {
+			rec.Failf("a Record that was used before holds something else after UnmarshalSAM (err %v):\n  %q\n  %q", err, line, b4)
 			return
 		}
 		lines = append(lines, line)
